@@ -362,6 +362,7 @@ func (e *Env) probeQueries(st *Step) {
 		}
 	}
 	// delegation balances: the reported balance can be undelegated, one more cannot
+	e.probePagination(st, qs, cctx)
 	for i := range post.Dels {
 		dl := &post.Dels[i]
 		if post.SVal(dl.Val) == nil || post.Asset(dl.Denom) == nil {
